@@ -457,6 +457,72 @@ def kernel_clauses(ctx):
 
 
 # ---------------------------------------------------------------------------------------------
+# reported feed-in of the pressure-fixing elements: the slack mass flow of the node, shared equally
+
+EG = "pandapipes.component_models.ext_grid_component"
+
+
+@unit("C01", "ext_grid/results", functions=[EG + ":ExtGrid.extract_results"], engine="E3")
+def ext_grid_results(ctx):
+    """every in-service pressure-fixing external grid reports sign() * MDOTSLACKINIT[node] / (number of
+    such grids at the node); all other rows keep their (NaN) initial value -- so the reports of the grids
+    at a node add up to the slack mass flow that closes the node's balance (slack row, L1)."""
+    ctx.assume("A1", "A4", "A6", "A7")
+    N_MSL = K.const(ND, "MDOTSLACKINIT")
+    cref = S.get_module(EG).classes["ExtGrid"]
+    n, NL = z3.Int("NEG"), z3.Int("NLOOKUP")
+    cols = {"in_service": "b", "type": "i", "junction": "i"}
+
+    def mk():
+        net = K.NetObj({"ext_grid": K.sym_table("ext_grid", n, cols),
+                        "res_ext_grid": K.sym_table("res_ext_grid", n, {"mdot_kg_per_s": "f"}),
+                        "_pit": {"node": K.sym_pit("node_pit", NN, NCN), "branch": K.sym_pit("branch_pit", NB, NCB)},
+                        "_lookups": {"node_index": {"junction": K.sym_arr("junction_lookup", NL, "i")}}})
+        return [cref, net, {}, {}, "hydraulics"], {}
+    paths = T.run_paths(ctx, EG + ":ExtGrid.extract_results", mk)
+    main = [p for p in paths if p.exc is None and p.result is not None]
+    ctx.decided("returns", "cover", len(main) >= 1 and all(p.exc is None for p in paths),
+                witness=str([str(p.exc) for p in paths]))
+    if not main:
+        return
+    tbl = K.sym_table("ext_grid", n, cols)
+    res0 = K.sym_table("res_ext_grid", n, {"mdot_kg_per_s": "f"})
+    npit = K.sym_pit("node_pit", NN, NCN)
+    L = K.sym_arr("junction_lookup", NL, "i")
+    r, r2 = z3.Int("r"), z3.Int("r2")
+    fixing = lambda q: z3.And(tbl.columns["in_service"].f(q),
+                              z3.Or(tbl.columns["type"].f(q) == V.str_code("p"), tbl.columns["type"].f(q) == V.str_code("pt")))
+    node = lambda q: L.f(tbl.columns["junction"].f(q))
+    req = [n >= 1, r >= 0, r < n, NN >= 1,
+           z3.ForAll([r2], z3.Implies(z3.And(r2 >= 0, r2 < n, fixing(r2)), z3.And(node(r2) >= 0, node(r2) < NN)))]
+    for p in main:
+        res = p.args[0][1].items["res_ext_grid"].columns["mdot_kg_per_s"]
+        rec = [d for tag, d in p.notes if tag == "unique"]
+        occ = rec[0]["occ"] if len(rec) == 1 else None
+        ctx.decided("unique-count-recorded", "cover", occ is not None, witness="np.unique(return_counts) not seen")
+        if occ is None:
+            continue
+        base = req + list(p.facts) + [p.cond()]
+        ctx.ob("fixing-rows-report-slack-mass-share", "ensures", base + [fixing(r)],
+               K.eq_val(res.f(r), V.R(npit.f(node(r), N_MSL)) / occ(node(r))))
+        ctx.ob("other-rows-untouched", "frame", base + [z3.Not(fixing(r))],
+               K.eq_val(res.f(r), res0.columns["mdot_kg_per_s"].f(r)))
+        # the count is the number of fixing rows at the node: every fixing row's node is counted at least once
+        ctx.ob("count-positive-on-fixing-rows", "ensures", base + [fixing(r)], occ(node(r)) >= 1)
+
+
+@unit("C01", "lean_lemmas", engine="Lean")
+def lean_lemmas(ctx):
+    """the Σ-lemmas over ANY number of branches per node / nodes per network (Lean 4 + Mathlib,
+    lean/Lemmas.lean): node row and slack row of the contract of build_system_matrix are exact after a
+    full step (L1), damped step leaves the factor (1 - alpha), and the node balances of a network sum to
+    zero, so total feed-in = total signed load (L3)."""
+    ctx.lean("L1/affine-row-exact-after-full-step", ["L1_affine_row_exact", "L1_affine_row_damped"])
+    ctx.lean("L1/node-row-balance-any-degree", ["node_row_balance", "slack_row_balance"])
+    ctx.lean("L3/network-balance-total-feed-equals-total-load", ["network_balance", "total_feed_equals_total_load"])
+
+
+# ---------------------------------------------------------------------------------------------
 # thermal system (registered under C10: node energy balance rows, imposed feed temperatures)
 
 def thermal_families(bp, npit):
